@@ -1,6 +1,9 @@
 import CasbinVerif.Spec.Mirror
 import CasbinVerif.Properties.C01
 import CasbinVerif.Properties.C06
+import CasbinVerif.Proofs.Mirror
+import CasbinVerif.Proofs.Enforcer
+import CasbinVerif.Proofs.MirrorStep
 /-
   C05 — Role inheritance always mirrors the currently listed grouping rules.
 
@@ -16,20 +19,23 @@ namespace Casbin.C05
 
 theorem init_wf (md : ModelDef) (hp : (md.p.map (·.1)).Nodup) (hg : (md.g.map (·.1)).Nodup)
     (hc : ∀ x ∈ md.g, 2 ≤ x.2.1 ∧ x.2.1 ≤ 3 ∧ (x.2.2 = .plain → x.2.1 = 2)) : (Enf.init md).WFState := by
-  sorry
+  exact init_wf' md hp hg hc
 
 theorem init_mirror (md : ModelDef) (hg : (md.g.map (·.1)).Nodup) : (Enf.init md).LinksMirror := by
-  sorry
+  have _ := hg
+  exact init_mirror' md
 
 /-- one API call keeps the state well-formed and the role links in step with the listed rules -/
 theorem mirror_step (e : Enf) (op : MOp) (hwf : e.WFState) (hm : e.LinksMirror) (hop : e.opWF op = true) :
     ∃ e' res, e.applyM op = some (e', res) ∧ e'.WFState ∧ e'.LinksMirror := by
-  sorry
+  obtain ⟨e', res, h1, h2⟩ := mirror_step' e op ⟨hwf, hm⟩ hop
+  exact ⟨e', res, h1, h2.1, h2.2⟩
 
 /-- after any well-formed history -/
 theorem mirror_hist (e : Enf) (ops : List MOp) (hwf : e.WFState) (hm : e.LinksMirror) (hops : e.histWF ops = true) :
     ∃ e', e.runM ops = some e' ∧ e'.WFState ∧ e'.LinksMirror := by
-  sorry
+  obtain ⟨e', h1, h2⟩ := mirror_hist' e ops ⟨hwf, hm⟩ hops
+  exact ⟨e', h1, h2.1, h2.2⟩
 
 /-- the incrementally maintained manager answers like reachability through the listed rules:
     user u holds role r (in domain d) exactly when r is reachable from u through the grouping rules
@@ -40,14 +46,15 @@ theorem hasLink_iff_listed_reach (e : Enf) (hwf : e.WFState) (hm : e.LinksMirror
     (u r : String) (ds : List String) :
     rm.hasLink u r ds = true ↔
       ReachWithin (linksOfRules count kind s.policy) (match kind with | .plain => "" | .domain => ds.headD "") rm.maxLevel u r := by
-  sorry
+  have key := hasLink_iff_listed_reach' e hwf hm gt rm count kind s h1 h2 h3 u r ds
+  cases kind <;> exact key
 
 /-- … which is the `g()` of the PERM reference semantics (the hypothesis `hlinks` of C01.enforce_eq_perm) -/
 theorem hasLink_eq_specLink (e : Enf) (hwf : e.WFState) (hm : e.LinksMirror)
     (hlev : ∀ gt rm, e.rm.lookup gt = some rm → rm.maxLevel = 10)
     (gt : String) (rm : RM) (h1 : e.rm.lookup gt = some rm) (u r : String) (ds : List String) :
     rm.hasLink u r ds = specLink e.md (fun gt => ((e.g.lookup gt).map (·.policy)).getD []) 10 gt (u :: r :: ds) := by
-  sorry
+  exact hasLink_eq_specLink' e hwf hm hlev gt rm h1 u r ds
 
 /-- it answers like a manager rebuilt from the listed rules alone -/
 theorem answers_like_rebuild (e : Enf) (hwf : e.WFState) (hm : e.LinksMirror)
@@ -56,19 +63,19 @@ theorem answers_like_rebuild (e : Enf) (hwf : e.WFState) (hm : e.LinksMirror)
     (hlev : rm.maxLevel = 10) (u r : String) (ds : List String) :
     ∃ rm', (RM.empty kind).applyRules count true s.policy = (rm', true) ∧
       rm.hasLink u r ds = rm'.hasLink u r ds := by
-  sorry
+  exact answers_like_rebuild' e hwf hm gt rm count kind s h1 h2 h3 hlev u r ds
 
 /-- links of one domain never leak into another: in a domain manager only links of the queried
     domain matter -/
 theorem no_domain_leak (rm : RM) (hk : rm.kind = .domain) (u r d : String) (extra : Link) (hd : extra.2.2 ≠ d) :
     ({ rm with links := rm.links ++ [extra] } : RM).hasLink u r [d] = rm.hasLink u r [d] := by
-  sorry
+  exact no_domain_leak' rm hk u r d extra hd
 
 /-- links of one role definition never leak into another: an operation on definition `gt` leaves
     the manager of every other definition untouched -/
 theorem no_definition_leak (e : Enf) (op : MOp) (sec gt : String) (sop : StoreOp) (hop : op.storeOp = some (sec, gt, sop))
     (e' : Enf) (res : Enf.MRes) (h : e.applyM op = some (e', res)) (gt' : String) (hne : gt' ≠ gt) :
     e'.rm.lookup gt' = e.rm.lookup gt' ∧ e'.g.lookup gt' = e.g.lookup gt' := by
-  sorry
+  exact no_definition_leak' e op sec gt sop hop e' res h gt' hne
 
 end Casbin.C05
